@@ -97,6 +97,7 @@ type FnCtx struct {
 	curProps        []string
 	sigStack        []*types.Signature
 	autoFrame       bool
+	pureDepth       int // nesting of callee-body scans in callIsPure
 	callHeapKeys    map[string]bool
 	deps            map[string]bool
 	isMacro         map[string]bool
